@@ -282,13 +282,27 @@ package frugal
 //@   ensures err == nil ==> client.limit == 0 || len(result) <= max(client.limit, 4)
 //@   ensures ncalls("lib.NewTMemoryOutputBuffer") == 1
 //@   ensures callarg("lib.NewTMemoryOutputBuffer", 0, 0) == client.limit
+// (C09) the caller's own context is written in front of the message, once, and a message is only handed
+// back when every part of it was written.
+//@   ensures ncalls("lib.FProtocol.WriteRequestHeader") == 1 && callarg("lib.FProtocol.WriteRequestHeader", 0, 1) == fctx
+//@   ensures result1 == nil ==> callret("lib.FProtocol.WriteRequestHeader", 0, 0) == nil && ncalls("thrift.TStruct.Write") == 1
+//@   ensures result1 == nil ==> callarg("thrift.TStruct.Write", 0, 0) == args && callret("thrift.TStruct.Write", 0, 0) == nil
+//@   ensures result1 == nil ==> inorder("lib.FProtocol.WriteRequestHeader", "thrift.TProtocol.WriteMessageBegin", "thrift.TStruct.Write", "thrift.TProtocol.WriteMessageEnd", "thrift.TProtocol.Flush")
 //@   modifies *
 
 // An application exception 100 never reaches the caller as such: it is reported as the transport
 // error RESPONSE_TOO_LARGE.
-//@ func lib.FStandardClient.processReply(client, ctx, fctx, method, result, resultTransport)
+//@ func lib.FStandardClient.processReply(client, ctx, fctx, method, res, resultTransport)
 //@   locals iprot, err, oMethod, mTypeID, err, error0
 //@   requires resultTransport != nil            // a transport may answer a call with no response frame (C05)
+// (C09) the response headers are read into the caller's own context, once and first; the call succeeds
+// only for a REPLY to the method that was called whose result struct was read.
+//@   ensures ncalls("lib.FProtocol.ReadResponseHeader") == 1 && callarg("lib.FProtocol.ReadResponseHeader", 0, 1) == fctx
+//@   ensures result == nil ==> callret("lib.FProtocol.ReadResponseHeader", 0, 0) == nil
+//@   ensures result == nil ==> oMethod == method && mTypeID == 2
+//@   ensures result == nil ==> ncalls("thrift.TStruct.Read") == 1
+//@   ensures result == nil ==> callarg("thrift.TStruct.Read", 0, 0) == res && callret("thrift.TStruct.Read", 0, 0) == nil
+//@   ensures result == nil ==> inorder("lib.FProtocol.ReadResponseHeader", "thrift.TProtocol.ReadMessageBegin", "thrift.TStruct.Read", "thrift.TProtocol.ReadMessageEnd")
 //@   ensures ncalls("thrift.TApplicationException.Read") == 1 && callret("thrift.TApplicationException.Read", 0, 0) == nil && ncalls("thrift.TProtocol.ReadMessageEnd") == 1 && callret("thrift.TProtocol.ReadMessageEnd", 0, 0) == nil && atype(error0) == APPLICATION_EXCEPTION_RESPONSE_TOO_LARGE ==> result != nil && implements(result, "thrift.TTransportException") && ttype(result) == TRANSPORT_EXCEPTION_RESPONSE_TOO_LARGE
 //@   ensures ncalls("thrift.TApplicationException.Read") == 1 && callret("thrift.TApplicationException.Read", 0, 0) == nil && ncalls("thrift.TProtocol.ReadMessageEnd") == 1 && callret("thrift.TProtocol.ReadMessageEnd", 0, 0) == nil && atype(error0) != APPLICATION_EXCEPTION_RESPONSE_TOO_LARGE ==> result == error0
 //@   modifies *
@@ -457,9 +471,26 @@ package frugal
 
 //@ func lib.FContextImpl.EphemeralProperties(c)
 //@   locals properties, key, value
-//@   ensures result != nil && fresh(result)
+//@   ensures result != nil && fresh(result) && dom(result) == dom(c.ephemeralProperties)
+//@   ensures forallkey(k, result, has(result, k) ==> result[k] == c.ephemeralProperties[k])
 //@   modifies alloc
-//@   loop 0 invariant properties != nil && fresh(properties) && c == c0
+//@   loop 0 invariant properties != nil && fresh(properties) && c == c0 && dom(properties) == visited(c.ephemeralProperties)
+//@   loop 0 invariant forallkey(k, properties, has(properties, k) ==> properties[k] == c.ephemeralProperties[k])
+//@   loop 0 invariant dom(c.ephemeralProperties) == loopentry(dom(c.ephemeralProperties)) && vals(c.ephemeralProperties) == loopentry(vals(c.ephemeralProperties))
+
+//@ pred ephH(c) = cast(c, "lib.FContextImpl").ephemeralProperties
+
+// Ephemeral properties: one entry of the receiver's own property map changes, nothing else.
+//@ func lib.FContextImpl.AddEphemeralProperty(c, key, value)
+//@   ensures_exclusive c.ephemeralProperties == old(c.ephemeralProperties) && c.requestHeaders == old(c.requestHeaders) && c.responseHeaders == old(c.responseHeaders)
+//@   ensures_exclusive forallkey(k, c.ephemeralProperties, k != key ==> has(c.ephemeralProperties, k) == old(has(c.ephemeralProperties, k)) && c.ephemeralProperties[k] == old(c.ephemeralProperties[k]))
+//@   ensures typeis(result, "*lib.FContextImpl") && cast(result, "lib.FContextImpl") == c
+//@   ensures has(c.ephemeralProperties, key) && c.ephemeralProperties[key] == value
+//@   modifies mapof(c.ephemeralProperties), alloc
+
+//@ func lib.FContextImpl.EphemeralProperty(c, key)
+//@   locals value, ok
+//@   ensures_exclusive result1 == has(c.ephemeralProperties, key) && (result1 ==> result0 == c.ephemeralProperties[key])
 
 // A clone has its own maps, equal to the original's except for a fresh op id.
 //@ func lib.FContextImpl.Clone(c)
@@ -472,6 +503,8 @@ package frugal
 //@   ensures reqH(result) != respH(result)
 //@   ensures forallkey(k, k != "_opid" ==> has(reqH(result), k) == has(c.requestHeaders, k) && (has(c.requestHeaders, k) ==> reqH(result)[k] == c.requestHeaders[k]))
 //@   ensures dom(respH(result)) == dom(c.responseHeaders) && forallkey(k, has(c.responseHeaders, k) ==> respH(result)[k] == c.responseHeaders[k])
+//@   ensures fresh(ephH(result)) && ephH(result) != c.ephemeralProperties
+//@   ensures dom(ephH(result)) == dom(c.ephemeralProperties) && forallkey(k, c.ephemeralProperties, has(c.ephemeralProperties, k) ==> ephH(result)[k] == c.ephemeralProperties[k])
 //@   modifies *
 
 // The free function Clone does the same for any FContext.
